@@ -187,13 +187,14 @@ class History:
             bi = rng.choice(onfocus)
         if r < 0.78:
             return self.gen_basis_op(bi)
-        if r < 0.87:
+        if r < 0.86:
             return self.gen_asm(bi)
-        if r < 0.90:
+        if r < 0.92:
             if hasattr(m, "element_finder") and kind in ("line", "tri", "quad", "tet", "hex"):
                 k = rng.randint(1, 3)
                 return {"op": "finder", "mesh": mi, "cells": [rng.randrange(nt) for _ in range(k)],
-                        "weights": [[rng.randint(1, 8) for _ in range(8)] for _ in range(k)]}
+                        "weights": [[rng.randint(1, 8) for _ in range(8)] for _ in range(k)],
+                        "ties": rng.random() < 0.5}
             return self.gen_basis_op(bi)
         return self.gen_solve()
 
